@@ -29,6 +29,17 @@ def main():
             Vertex.NEIGHBOR_CACHING = bool(job["flag"])
             loader = dill if job.get("loader") == "dill" else pickle
             world = loader.loads(job["blob"])
+            if "c10" in job["want"]:
+                from eglib import canon
+
+                form, order = canon.canonical(world)
+                res["canon"] = form
+                vs = [order[p] for p in job["vs_pos"]]
+                ls = [order[p] for p in job["ls_pos"]]
+                res["battery"] = battery.evaluate(vs, ls)
+                res["usable"] = canon.usability_probe(vs)
+                results.append(res)
+                continue
             if "battery" in job["want"]:
                 res["battery"] = battery.evaluate(world["vs"], world["ls"], world.get("unis", ()), level=job.get("level", 2))
             if "canon" in job["want"]:
